@@ -108,6 +108,16 @@ Print Assumptions places_complete.
 Print Assumptions indices_in_range.
 Print Assumptions display_nonempty.
 
+(* Stacks() is an observation: any sequence of calls, on any reports sharing the profile (options
+   [os], one per call), returns for EVERY call the stack set of the original profile -- to which all
+   theorems above apply -- and leaves the profile as it was.  (The implementation side of this is
+   checked by the call-sequence cases: every served stack set is judged against the original
+   profile, and the profile is dumped again after the calls.) *)
+Theorem stacks_repeatable : forall shorten clean os p,
+  stacks_calls shorten clean os p = (map (fun o => stacks_of shorten clean o p) os, p).
+Proof. exact stacks_calls_lemma. Qed.
+Print Assumptions stacks_repeatable.
+
 (* the model walks frames in the order the specification describes them (Go's two descending loops
    with "inlined := j != len-1" = outermost line first, the others flagged) *)
 Theorem loops_visit_spec_frames : forall p s, sample_lines p s = sample_frames p s.
